@@ -26,6 +26,8 @@ ROOT = "query::runner::hybrid::Query::<C, HV, R>::execute"
 
 def run(ctx):
     input_bound(ctx, ctx.facts())
+    from rules import C19
+    C19.core(ctx, ctx.facts())         # "wherever the copies land": the exchange that brings equal tags to one shard
     facts = ctx.facts()
     tree = [b for b in facts.tree(ROOT) if b.file.startswith("ipa-core/")]
     if not tree:
